@@ -856,6 +856,7 @@ func init() {
 			c.AuthoriseBeforeAct("C07")
 			c.ResolvedName("C07")
 			c.LosslessSplit("C07")
+			c.CreatedIsChecked("C07")
 			c.ConfigOrderPreserved("C07")
 			c.DispatchTable("C07")
 			c.PreCheckRules("C07")
